@@ -499,7 +499,8 @@ fn fx_market(id: u32) -> Option<FXRates> {
     }
     let vals = [1.0842, 110.25, 0.7685, 7.8e-4];
     let pairs: [(usize, usize); 3] = [(1, 0), (0, 3), (2, 0)]; // eurusd usdjpy gbpusd
-    let st = if settle { Some(to_ndt(19900)) } else { None };
+    // (markets with an odd id carry a settlement with a sub-second part)
+    let st = if settle { Some(to_ndt(19900) + if id % 2 == 1 { chrono::Duration::nanoseconds(15 * 3_600_000_000_000 + 123_456_789) } else { chrono::Duration::zero() }) } else { None };
     let mk = |i: usize, v: f64| {
         let num = match form {
             0 => Number::F64(v),
@@ -1093,7 +1094,7 @@ pub fn run(ctx: &Ctx, replay_file: Option<String>) -> ! {
          None / [] / 1-2 settlement calendars; named calendars (name-only storage checked in the JSON text, full \
          1970-2200 behaviour compared); curves: 6 interpolators x 3 orders x 3 calendar kinds x 11 conventions x 5 \
          modifiers x index base on/off, curves with a history of order switches, and curves whose node dates straddle 1970-01-01 and 2001-09-09 (timestamps that sort differently as text and as numbers); FX markets of 2-4 currencies x \
-         float/Dual/Dual2 quotes x settlement x three base choices x eight histories (an update to the same value in another form (variable-free dual number, plain float), fresh, order switch, update, \
+         float/Dual/Dual2 quotes x settlement (none, a date, a date-time with nanoseconds) x three base choices x eight histories (an update to the same value in another form (variable-free dual number, plain float), fresh, order switch, update, \
          update between order switches, refused update with a known pair listed first, refused update for its settlement date followed by an order switch); splines of the three types with and without coefficients; typed CurveDF; every loaded market, curve and float spline is also taken ONE STEP FURTHER together with its original (the same quote update, the same three order switches with look-ups, the same re-solve) and must stay identical; large objects on a size menu (5 .. 257): numbers with that many names, curves with that many nodes at orders 0-2, \
          cubic splines with that many coefficients (float and Dual), FX chains of up to 14 currencies. \
          Oracle: the type's own ==, bitwise identity of EVERY float field, identical names/order/kind, and an identical \
